@@ -32,7 +32,7 @@ N1, N2 = 128, 4096
 KS = list(range(0, 9))
 KS2 = (0, 1, 2, 5, 8)     # depth >= 2
 SLACK = 16
-CONSUMERS = ('islice', 'head', 'rowslice', 'look', 'see')
+CONSUMERS = ('islice', 'head', 'rowslice', 'look', 'see', 'slice', 'index')
 READAHEAD = {'unpackdict(sample)': 2, 'fromdicts(list,sample)': 3}
 
 _STREAM = None
@@ -55,6 +55,14 @@ def consume(view, consumer, k):
         return len(list(etl.head(view, k)))
     if consumer == 'rowslice':
         return len(list(etl.rowslice(view, k)))
+    if consumer == 'slice':
+        return len(list(view[:k + 1]))                              # container slice syntax
+    if consumer == 'index':
+        try:
+            view[k]                                                 # k-th item (0 = header)
+        except IndexError:
+            return 0
+        return k + 1
     if consumer == 'look':
         if k == 0:
             return 0
@@ -82,9 +90,10 @@ def build(names, N, ctx, plain=False):
     first = C.BY_NAME[names[0]]
     # the build side of a hash join / hash set operation is materialised by design as soon as an iterator
     # (even a header read) is requested: it is outside the guarantee (DESIGN.md C02)
-    ins = [mk(kd, N if i == first.stream else 3, exempt=(i != first.stream and first.name.startswith('hash')))
+    fs = first.stream if first.stream is not None else 0
+    ins = [mk(kd, N if i == fs else 3, exempt=(i != fs and first.name.startswith('hash')))
            for i, kd in enumerate(first.kinds)]
-    main = ins[first.stream]
+    main = ins[fs]
     v = first.build(ins, ctx)
     for nm in names[1:]:
         o = C.BY_NAME[nm]
@@ -116,7 +125,7 @@ def check_pipeline(names, ctx, ks, consumers):
     nontrivial = 0
     evals = 0
     if 'container' in C.BY_NAME[names[-1]].tags:
-        consumers = [c for c in consumers if c == 'islice']
+        consumers = [c for c in consumers if c in ('islice', 'slice', 'index')]
     for consumer in consumers:
         for k in ks:
             pulls = []
@@ -152,6 +161,31 @@ def check_pipeline(names, ctx, ks, consumers):
                 bad.append(('pulls exceed k + constant', {'consumer': consumer, 'k': k, 'pulled': p1,
                                                            'allowed': k + SLACK * len(names) + ahead + 1}))
     return bad, nontrivial, evals
+
+
+def construct_ops():
+    """Every non-streaming view of the catalogue (sort-backed operators, tail, transpose, crossjoin, recast,
+    pivot, counters ...): the statement's first clause — construction reads no data row — covers them too."""
+    return [o for o in C.OPS if o.stream is None and o.kinds and not (o.tags & {'eager', 'io', 'ctx', 'c02only'})]
+
+
+def check_construction(names, ctx):
+    bad = []
+    ahead = sum(READAHEAD.get(n, 0) for n in names)
+    hdrshift = sum(1 for nm in names if nm.startswith('skip(')) + ahead
+    pulls = []
+    for N in (N1, N2):
+        try:
+            b = build(names, N, ctx)
+        except Exception as e:
+            bad.append(('raises at construction on counting source', {'N': N, 'exc': type(e).__name__}))
+            break
+        c0 = [s.datarows for s in b.srcs]
+        pulls.append(sum(c0))
+        if sum(c0) > hdrshift:
+            bad.append(('data rows read at construction', {'k': 0, 'N': N, 'pulled': c0}))
+            break
+    return bad
 
 
 # ---- file extractors: bytes handed out by the raw file -----------------------------------------
@@ -296,6 +330,8 @@ def items(tier, seed):
         out.append({'kind': 'pipe', 'first': nm, 'depth': 2})
     for nm in EXTRACTORS:
         out.append({'kind': 'extract', 'name': nm})
+    for o in construct_ops():
+        out.append({'kind': 'construct', 'first': o.name})
     if tier == 'thorough':
         reps = _reps()
         for a in reps:
@@ -306,13 +342,13 @@ def items(tier, seed):
 
 
 def cost(item):
-    return {'pipe': 5, 'extract': 20, 'pipe3': 1}[item['kind']]
+    return {'pipe': 5, 'extract': 20, 'pipe3': 1, 'construct': 2}[item['kind']]
 
 
 def bounds(tier, seed):
     return {'streaming_call_forms': len(_STREAM), 'depth': 2 if tier == 'quick' else 3, 'k': KS,
             'k_depth2': list(KS2), 'source_lengths': [N1, N2], 'consumers': list(CONSUMERS), 'slack_per_stage': SLACK,
-            'extractors': sorted(EXTRACTORS), 'file_rows': [FILE_N1, FILE_N2],
+            'extractors': sorted(EXTRACTORS), 'construction_only_views': len(construct_ops()), 'file_rows': [FILE_N1, FILE_N2],
             'depth3_representatives': len(_reps()) if tier == 'thorough' else 0}
 
 
@@ -351,13 +387,39 @@ def run_item(item, acc):
             if not composable(names, ctx):
                 acc.counters['pipelines:not-composable'] += 1
                 continue
-            bad, nt, ev = check_pipeline(names, ctx, KS2, ('islice', 'look'))
+            bad, nt, ev = check_pipeline(names, ctx, KS2, ('islice', 'look', 'slice'))
             acc.evals += ev
             acc.transitions += ev
             acc.states += 1
             acc.nontrivial += nt
             acc.counters['pipelines:depth2'] += 1
             acc.outcome((first, o2.name, nt))
+            _report(acc, names, bad)
+    elif item['kind'] == 'construct':
+        first = item['first']
+        bad = check_construction([first], ctx)
+        acc.evals += 2
+        acc.transitions += 2
+        acc.states += 1
+        acc.counters['construct:depth1'] += 1
+        acc.outcome((first, 'construct', len(bad)))
+        _report(acc, [first], bad)
+        if bad or 'hdrdep' in C.BY_NAME[first].tags:
+            return      # a data-dependent header legitimately costs data when a later stage asks for it
+        for o2 in _STREAM:
+            if len(o2.kinds) != 1:
+                continue
+            names = [first, o2.name]
+            if not composable(names, ctx):
+                acc.counters['pipelines:not-composable'] += 1
+                continue
+            bad = check_construction(names, ctx)
+            acc.evals += 2
+            acc.transitions += 2
+            acc.states += 1
+            acc.nontrivial += 1
+            acc.counters['construct:depth2'] += 1
+            acc.outcome((first, o2.name, 'construct', len(bad)))
             _report(acc, names, bad)
     elif item['kind'] == 'pipe3':
         a, b = item['first'], item['second']
@@ -407,6 +469,9 @@ def replay(case):
     ctx = _ctx()
     k = case.get('k', 1)
     consumer = case.get('consumer', 'islice')
+    if case.get('consumer') is None and 'N' in case and case.get('k', 0) == 0 and C.BY_NAME[case['names'][0]].stream is None:
+        bad = check_construction(case['names'], ctx)
+        return (None, bad, 'laziness violated') if bad else None
     if case['kind'] == 'extract':
         name, second = case['names'][0], case['names'][1]
         bad, _, _ = check_extractor(name, second, ctx, (k,), (consumer,))
